@@ -25,10 +25,6 @@ theorem generated_templates :
     GenCtl.ITERM2_START = ["\x1b]1337;File="] ∧ GenCtl.ST = ["\x1b\\"] ∧
     GenCtl.UPPER_PIXEL = "▀" ∧ GenCtl.LOWER_PIXEL = "▄" := by decide
 
-theorem LineOK.mono {K K' : TermKind → Prop} (hK : ∀ k, K' k → K k) {w h i : Nat} {m : SgrMode}
-    {S : Nat → Prop} {l : List Tok} (h0 : LineOK K w h i m S l) : LineOK K' w h i m S l :=
-  fun t r0 x hk hR => h0 t r0 x (hK _ hk) hR
-
 /-- BLOCK: every pixel content, every size, kitty workaround / split cells / alpha on or off -/
 theorem block_rect (cfg : Block.Cfg) (rows : List (List Block.PP)) (w h : Nat)
     (hh : rows.length = h) (hw : ∀ row ∈ rows, row.length = w) (hpos : 0 < h)
